@@ -225,9 +225,13 @@ RCP<const Set> Interval::set_union(const RCP<const Set> &o) const
         start_start = max({this->start_, other.start_});
         end_end = min({this->end_, other.end_});
         m = min({start_start, end_end});
+        // intervals that merely touch are disjoint only if the common end
+        // point belongs to neither of them
         if ((eq(*end_end, *start_start) and eq(*end_end, *m)
-             and ((eq(*end_end, *this->end_) and this->right_open_)
-                  or (eq(*end_end, *other.end_) and other.right_open_)))
+             and ((eq(*end_end, *this->end_) and this->right_open_
+                   and other.left_open_)
+                  or (eq(*end_end, *other.end_) and other.right_open_
+                      and this->left_open_)))
             or (eq(*end_end, *m) and not eq(*end_end, *start_start))) {
             return SymEngine::make_set_union(
                 {rcp_from_this_cast<const Set>(), o});
